@@ -256,59 +256,7 @@ func callFormRules(c *core.Ctx, r *core.Report, rule string) {
 				"classifier has no arm for *ssa."+form+": a "+strings.ToLower(form)+"-form call to a function matching a specification is not identified (e.g. `defer os.RemoveAll(path)` is never a backtrace point or source)")
 		}
 	}
-	// identification code must not go through CallInstruction.Value(): it is nil for go and defer statements
-	valueScope := []struct{ rel, file string }{
-		{"analysis/dataflow", "inter_procedural.go"}, {"analysis/dataflow", "annotation_resolver.go"},
-		{"analysis/taint", "code_identifiers.go"}, {"analysis/taint", "taint.go"},
-		{"internal/analysisutil", "analysisutil.go"}, {"analysis/backtrace", "backtrace.go"},
-	}
-	nFiles, nSites := 0, 0
-	for _, vs := range valueScope {
-		p := c.Pkg(vs.rel)
-		if p == nil {
-			continue
-		}
-		for _, f := range p.Syntax {
-			if !strings.HasSuffix(c.Fset.Position(f.Pos()).Filename, "/"+vs.file) {
-				continue
-			}
-			nFiles++
-			for _, d := range f.Decls {
-				fd, ok := d.(*ast.FuncDecl)
-				if !ok || fd.Body == nil {
-					continue
-				}
-				fname := vs.rel + "." + fd.Name.Name
-				r.Analysed(fname)
-				n := 0
-				ast.Inspect(fd.Body, func(nd ast.Node) bool {
-					inner, ok := nd.(*ast.CallExpr)
-					if !ok || len(inner.Args) != 0 {
-						return true
-					}
-					se, ok := inner.Fun.(*ast.SelectorExpr)
-					if !ok || se.Sel.Name != "Value" {
-						return true
-					}
-					rt := p.TypesInfo.TypeOf(se.X)
-					if rt == nil || !strings.HasSuffix(rt.String(), "ssa.CallInstruction") {
-						return true
-					}
-					n++
-					nSites++
-					r.Fail(rule, fmt.Sprintf("%s|CallInstruction.Value()#%d", fname, n), c.Pos(inner.Pos()),
-						"identification of a call goes through CallInstruction.Value(), which is nil for go and defer statements: a go/defer-form call matching a specification (source, backtrace point, or a sink/sanitizer given with value-match) is not identified")
-					return true
-				})
-			}
-		}
-	}
-	if nFiles < len(valueScope) {
-		r.Fail("infra.anchor-unresolved", rule+"|value-scope", "", fmt.Sprintf("only %d of %d identification source files found", nFiles, len(valueScope)))
-	}
-	if nSites == 0 {
-		r.OK(rule, "identification|CallInstruction.Value()", "", "no identification code goes through CallInstruction.Value()")
-	}
+	callValueRule(c, r, rule)
 	r.Floor(rule, 7, "2 classifiers x 3 forms + scan")
 }
 
